@@ -39,7 +39,11 @@ RULE = ('quick: every pair of operand shapes (scalar or h×w, 1≤h,w≤4: 17² 
         'functions checked by the implementation-only oracle); fit_to_range for every result shape × target shape; real '
         'workbooks with an openpyxl ArrayFormula over every target shape ≤4×4 for every result shape (17×16, value '
         'formulas), plus operator / function formulas on sampled operand shapes, evaluating the target range and every '
-        'member cell. thorough: several element drawings per shape pair and every operand-shape pair × every target in '
+        'member cell; operands of magnitude around 2^31/2^53/2^63/2^64 with int/float typing mixed (exact against the '
+        'scalar application); arrays mixing a value with its typed twins (7/"7"/7.0, 1/TRUE/"1", 0/FALSE/blank/""/"0") '
+        'under type-sensitive functions and operators; workbooks whose operands are reached through chains of 0..3 '
+        'uncomputed formula cells (also after set_value on the deepest input, also through a nested identity array '
+        'formula), result shape ≠ target, members first or target first. thorough: several element drawings per shape pair and every operand-shape pair × every target in '
         'workbooks. A case is non-trivial when an array of more than one cell takes part; distinct = distinct case.')
 ASSUMPTIONS = [
     'operands are scalars or rectangular 2-D arrays with 1..4 rows and columns (what ranges and array constants give)',
